@@ -29,7 +29,100 @@ func runC19(c *Ctx) {
 	c.apiVersionFixup()
 	c.annotationKeys()
 	c.defaultBeforeSend()
+	c.hijackWrappers()
 	c.defaulterDiscipline()
+}
+
+// hijackWrappers: C19.6 — every method of the hijacked StatefulSet client calls
+// the same verb of the Advanced client exactly once, passes its own context,
+// name and options through, sends the conversion of the object it was given,
+// and returns the conversion of what it got back.
+func (c *Ctx) hijackWrappers() {
+	n := 0
+	for _, m := range []string{"Create", "Update", "UpdateStatus", "Get", "List", "Patch", "Apply", "ApplyStatus", "Watch"} {
+		fi := c.Func(load.HelperPkg, "hijackStatefulSet."+m)
+		if fi == nil {
+			continue
+		}
+		n++
+		fn, an := c.Analysis(fi)
+		info := fi.Pkg.TypesInfo
+		var site *ast.CallExpr
+		cnt := 0
+		for _, s := range c.G.Sites {
+			if s.Fn == fi.Obj && s.Resource == "statefulsets.pingcap" {
+				cnt++
+				if s.Verb == m {
+					site = s.Call
+				}
+			}
+		}
+		name := "hijackStatefulSet." + m
+		if site == nil || cnt != 1 {
+			c.Bad("C19.6-hijack-wrapper", name, fi.Decl.Pos(), fmt.Sprintf("does not call exactly the underlying %s once (%d Advanced-client calls)", m, cnt))
+			continue
+		}
+		// parameters passed through unchanged (all non-object parameters), in order
+		var params []*ast.Ident
+		for _, pf := range fi.Decl.Type.Params.List {
+			params = append(params, pf.Names...)
+		}
+		pass := true
+		for i, a := range site.Args {
+			if i >= len(params) {
+				pass = false
+				break
+			}
+			pt := types.TypeString(info.TypeOf(params[i]), nil)
+			if strings.Contains(pt, "k8s.io/api/apps/v1.StatefulSet") || strings.Contains(pt, "applyconfigurations/apps/v1.StatefulSetApplyConfiguration") {
+				// the object: must be the conversion of this parameter
+				src, _ := reachingDefRHS(fi, info, a, site).(*ast.CallExpr)
+				okObj := src != nil && strings.HasPrefix(calleeShort(info, src), "FromBuiltin") && len(src.Args) == 1 && fn.Term(src.Args[0]).Key() == fn.Term(params[i]).Key()
+				if !okObj {
+					pass = false
+				}
+				continue
+			}
+			if fn.Term(a).Key() != fn.Term(params[i]).Key() {
+				pass = false
+			}
+		}
+		c.Check(pass && len(site.Args) == len(params), "C19.6-hijack-arguments", name, site.Pos(), "context, name, options are passed through and the object sent is the conversion of the one given", "the hijacked "+m+" does not pass its arguments through faithfully")
+		// successful returns convert the underlying result
+		res := stmtOf(fi.Decl.Body, site)
+		var resID *ast.Ident
+		if as, ok := res.(*ast.AssignStmt); ok && len(as.Lhs) == 2 {
+			resID, _ = as.Lhs[0].(*ast.Ident)
+		}
+		okRet := false
+		nRet := 0
+		ast.Inspect(fi.Decl.Body, func(x ast.Node) bool {
+			ret, ok := x.(*ast.ReturnStmt)
+			if !ok || len(ret.Results) == 0 || !an.StateBefore(ret).Reachable() {
+				return true
+			}
+			// error returns are fine
+			if len(ret.Results) == 2 && isNilExpr(info, ret.Results[0]) {
+				return true
+			}
+			nRet++
+			var conv *ast.CallExpr
+			if len(ret.Results) == 1 {
+				conv, _ = ret.Results[0].(*ast.CallExpr)
+			} else if len(ret.Results) == 2 && isNilExpr(info, ret.Results[1]) {
+				conv, _ = ret.Results[0].(*ast.CallExpr)
+			}
+			if conv != nil && resID != nil && len(conv.Args) == 1 && fn.Term(conv.Args[0]).Key() == fn.Term(resID).Key() {
+				switch calleeShort(info, conv) {
+				case "ToBuiltinStatefulSet", "ToBuiltinStetefulsetList", "newHijackWatch":
+					okRet = true
+				}
+			}
+			return true
+		})
+		c.Check(okRet && nRet == 1, "C19.6-hijack-result", name, fi.Decl.Pos(), "the one successful return converts the underlying call's result to the built-in type", "the hijacked "+m+" does not return the conversion of what the Advanced client returned")
+	}
+	c.Floor("C19.6-hijack-methods", n, 8)
 }
 
 // ---------------------------------------------------------------------------
